@@ -226,7 +226,8 @@ def gen_poolmix(seed, tier, o):
     else:
         scn["policy"] = r.choice(o.get("policies", [
             {"mode": "ops", "op_p": 0.5}, {"mode": "lines", "p": 0.02},
-            {"mode": "lines", "p": 0.1}, {"mode": "lines", "p": 0.3}]))
+            {"mode": "lines", "p": 0.1}, {"mode": "lines", "p": 0.3},
+            {"mode": "pct", "q": 0.004, "q_op": 0.05}]))
     if r.random() < 0.3 and ex != "trio":
         scn["tick"] = 1e-9
     return scn
